@@ -639,6 +639,38 @@ mod pipeline {
         }
     }
 
+    /// the cookie follows the configuration AS IT IS when the session is finalized: one configuration object changed in
+    /// place between two requests, and a changed clone of it
+    #[tokio::test]
+    async fn a_configuration_changed_between_requests_is_honoured() {
+        use pavex::cookie::SameSite;
+        let store = SessionStore::new(InMemorySessionStore::new());
+        let mut config = SessionConfig::default();
+        async fn issue(store: &SessionStore, config: &SessionConfig) -> pavex::cookie::ResponseCookie<'static> {
+            let mut s = Session::new(store, config, None);
+            s.insert("k", 1).await.unwrap();
+            s.finalize().await.unwrap().expect("cookie")
+        }
+        let c1 = issue(&store, &config).await;
+        assert_eq!((c1.name(), c1.path(), c1.secure()), ("id", Some("/"), Some(true)));
+        config.cookie.name = "renamed".into(); config.cookie.domain = Some("example.com".into()); config.cookie.path = Some("/app".into());
+        config.cookie.same_site = Some(SameSite::Strict); config.cookie.secure = false; config.cookie.http_only = false;
+        let c2 = issue(&store, &config).await;
+        assert_eq!((c2.name(), c2.domain(), c2.path(), c2.same_site(), c2.secure().unwrap_or(false), c2.http_only().unwrap_or(false)), ("renamed", Some("example.com"), Some("/app"), Some(SameSite::Strict), false, false), "the configuration was changed in place after a first cookie had been issued");
+        let mut other = config.clone();
+        other.cookie.name = "clone".into(); other.cookie.path = None; other.cookie.domain = None;
+        let c3 = issue(&store, &other).await;
+        assert_eq!((c3.name(), c3.domain(), c3.path()), ("clone", None, None), "a changed clone of a configuration that had already issued a cookie");
+        // and the protection decision is taken for the name actually used
+        let p = processor("clone", Some(CryptoAlgorithm::Signing));
+        let mut s = Session::new(&store, &other, None); s.insert("k", 1).await.unwrap();
+        let mut jar = ResponseCookies::new();
+        finalize_session(Response::ok(), &mut jar, &p, s).await.expect("the cookie named `clone` is covered by the signing rule");
+        let mut s = Session::new(&store, &config, None); s.insert("k", 1).await.unwrap();
+        let mut jar = ResponseCookies::new();
+        assert!(finalize_session(Response::ok(), &mut jar, &p, s).await.is_err() && jar.iter().count() == 0, "the cookie named `renamed` has no crypto rule");
+    }
+
     #[tokio::test]
     async fn cookie_attributes_follow_the_configuration_and_debug_never_shows_the_id() {
         use pavex::cookie::SameSite;
